@@ -1,9 +1,32 @@
 //! variable-order cases on the REAL VarOrder: the position and label maps must be mutually inverse
 use crate::CaseResult;
-use rsdd::repr::{VarLabel, VarOrder};
+use rsdd::repr::{Cnf, Literal, VarLabel, VarOrder};
 use serde_json::{json, Value};
 
+/// orders derived from a CNF (linear, force, min-fill) must be bijections between its labels and 0..n
+fn run_heur(c: &Value) -> CaseResult {
+    let cls: Vec<Vec<Literal>> = c["cnf"].as_array().map(|cs| cs.iter().map(|cl| cl.as_array().map(|ls| ls.iter().map(|l| {
+        let x = l.as_i64().unwrap_or(1);
+        Literal::new(VarLabel::new((x.unsigned_abs() - 1) as u64), x > 0)
+    }).collect()).unwrap_or_default()).collect()).unwrap_or_default();
+    let cnf = Cnf::new(&cls);
+    let n = cnf.num_vars();
+    for (name, o) in [("linear_order", cnf.linear_order()), ("force_order", cnf.force_order()), ("min_fill_order", cnf.min_fill_order())] {
+        if o.num_vars() != n { return Err(format!("{name}: {} variables, the CNF has {n}", o.num_vars())); }
+        let mut seen = vec![false; n];
+        for l in 0..n {
+            let p = o.get(VarLabel::new(l as u64));
+            if p >= n || seen[p] { return Err(format!("{name}: position {p} of label {l} is out of range or taken twice")); }
+            seen[p] = true;
+            if o.var_at_level(p).value() as usize != l { return Err(format!("{name}: label at level {p} is {}, expected {l}", o.var_at_level(p).value())); }
+        }
+        if name == "linear_order" { for l in 0..n { if o.get(VarLabel::new(l as u64)) != l { return Err("linear_order is not the identity".into()); } } }
+    }
+    Ok(())
+}
+
 pub fn run(c: &Value) -> CaseResult {
+    if c["case"].as_str() == Some("order_heur") { return run_heur(c); }
     let perm: Vec<u64> = c["order"].as_array().map(|a| a.iter().map(|v| v.as_u64().unwrap_or(0)).collect()).unwrap_or_default();
     let labels: Vec<VarLabel> = perm.iter().map(|v| VarLabel::new(*v)).collect();
     let mut o = VarOrder::new(&labels);
@@ -42,8 +65,19 @@ fn perms(n: usize) -> Vec<Vec<u64>> {
     out
 }
 
-pub fn candidates(_seed: u64) -> Vec<Value> {
+pub fn candidates(seed: u64) -> Vec<Value> {
     let mut out = vec![];
+    let mut s = seed.wrapping_add(99);
+    let mut nx = |n: u64| { s = s.wrapping_mul(6364136223846793005).wrapping_add(1442695040888963407); (s >> 33) % n };
+    out.push(json!({"case": "order_heur", "cnf": [[1]]}));
+    out.push(json!({"case": "order_heur", "cnf": [[1, 2], [2, 3], [3, 4], [4, 5]]}));
+    for _ in 0..200 {
+        let nv = 1 + nx(6);
+        let ncl = 1 + nx(6);
+        let mut cnf: Vec<Vec<i64>> = (0..ncl).map(|_| (0..1 + nx(3)).map(|_| { let v = 1 + nx(nv) as i64; if nx(2) == 0 { v } else { -v } }).collect()).collect();
+        cnf.push(vec![nv as i64]);
+        out.push(json!({"case": "order_heur", "cnf": cnf}));
+    }
     for n in 0..=4 {
         for p in perms(n) {
             for ext in 0..3 {
